@@ -249,7 +249,7 @@ def _(es, A, o, ctx):
 
 
 @call("stat.wmom", [("arr", "data"), ("w", "pos")], {"calcerr": [False, True], "sdev": [False, True],
-                                                     "inputmean": [None, 0.5]}, layouts=LAY2, n=(2, 20))
+                                                     "inputmean": [None, 0.5, 0.0, 0]}, layouts=LAY2, n=(2, 20))
 def _(es, A, o, ctx):
     return es.stat.wmom(A["arr"], A["w"], calcerr=o["calcerr"], sdev=o["sdev"], inputmean=o["inputmean"])
 
